@@ -126,7 +126,17 @@ class Verifier(Engine):
         if self.clsname is None:
             raise OutOfSubset('super() outside a class')
         c = classes.get(self.clsname)
-        for k in c.__mro__[1:]:
+        mro = list(c.__mro__[1:])
+        sargs = e.func.value.args
+        if sargs:
+            # super(Class, self): the search starts after Class in the MRO of self's class
+            if len(sargs) != 2 or not isinstance(sargs[0], ast.Name) or not isinstance(sargs[1], ast.Name) or sargs[1].id != 'self':
+                raise OutOfSubset('super() with unusual arguments')
+            names = [k.__name__ for k in c.__mro__]
+            if sargs[0].id not in names:
+                raise OutOfSubset('super(%s, self): not a base class' % sargs[0].id)
+            mro = list(c.__mro__[names.index(sargs[0].id) + 1:])
+        for k in mro:
             if attr in vars(k):
                 q = '%s.%s.%s' % (k.__module__, k.__qualname__, attr)
                 args = [self.ev.ev(st, a) for a in e.args]
@@ -510,6 +520,10 @@ class Verifier(Engine):
         # its postcondition would be unsound, e.g. `self.f == arg` between a str field and an object is just False)
         if isinstance(v, VList) and v.ek == 'any' and kind.startswith('list:'):
             return VList(v.t, kind[5:])          # an empty list literal takes the declared element kind
+        if isinstance(v, VTuple) and kind.startswith('list:') and kind[5:] in ('str', 'int') and \
+                all(isinstance(x, {'str': VStr, 'int': VInt}[kind[5:]]) for x in v.items):
+            # the tuple of a *args parameter read as a sequence of its elements (only `in` / indexing are used on it)
+            return self.new_list(st, list(v.items), kind[5:])
         base = kind.split(':')[0]
         want = {'str': (VStr,), 'int': (VInt, VBool), 'bool': (VBool,), 'pos': (VTuple,), 'ref': (VRef, VNoneT, VPy),
                 'list': (VList, VRef, VNoneT)}.get(base)
